@@ -154,6 +154,7 @@ pub fn run_check(spec: &CheckSpec, tier: Tier) -> i32 {
     // none reproduces; a change that brings one of the defects back is reported at once, however
     // deep the state it needs (defect 17 takes the seeded batch some 40 000 runs to reach).
     let mut corpus_ran = 0u64;
+    let mut corpus_aborts = 0u64;
     if std::env::var_os("RAINSIM_NO_CORPUS").is_none() {
         let dir = verif_root().join("replays").join("fixed");
         let mut files: Vec<std::path::PathBuf> = std::fs::read_dir(&dir).map(|d| d.filter_map(|e| e.ok().map(|e| e.path())).filter(|p| p.extension().map(|x| x == "json").unwrap_or(false)).collect()).unwrap_or_default();
@@ -165,7 +166,24 @@ pub fn run_check(spec: &CheckSpec, tier: Tier) -> i32 {
             if rf.property != spec.prop && !matches!(rf.case.engine, crate::exec::Engine::Hist | crate::exec::Engine::Conc) {
                 continue;
             }
-            let res = crate::checks::exec_case(&rf.case);
+            // each corpus case runs in a process of its own: under a changed tree one of them may
+            // kill its process, which must not take the batch with it
+            let res = match crate::checks::run_child(&rf.case) {
+                (Some(r), _, _, _) => r,
+                (None, _, _, st) => {
+                    corpus_ran += 1;
+                    let f = Finding { properties: vec!["C09".into()], class: crate::supervise::ABORT_CLASS.into(), signature: crate::supervise::ABORT_CLASS.into(), detail: format!("executing the regression-corpus case {} kills the whole process ({})", f.display(), st), seq: 0, op_index: None, fault: None };
+                    if spec.prop == "C09" {
+                        println!("regression corpus: {} kills its process", f.detail);
+                        let res = CaseResult { findings: vec![f.clone()], stats: Default::default(), trace: vec![], schedule: vec![], history_digest: 0, fs_digest: 0, sched_digest: 0, completed: false, abort: Some(st), replay_diverged: None, derived: None };
+                        hits.lock().unwrap().push(Hit { from_corpus: true, index: 0, case: rf.case.clone(), res, finding: f });
+                        stop.store(true, Ordering::Relaxed);
+                        break;
+                    }
+                    corpus_aborts += 1;
+                    continue;
+                }
+            };
             corpus_ran += 1;
             let hit = res.findings.iter().find(|x| x.concerns(spec.prop) && known.matches(spec.prop, x).is_none() && !x.concerns("HARNESS")).cloned();
             if let Some(finding) = hit {
@@ -272,6 +290,9 @@ pub fn run_check(spec: &CheckSpec, tier: Tier) -> i32 {
 
     let mut acc = total.into_inner().unwrap();
     acc.add("regression_corpus_cases_replayed", corpus_ran);
+    if corpus_aborts > 0 {
+        *acc.other_property_findings.entry(format!("C09:{}", crate::supervise::ABORT_CLASS)).or_insert(0) += corpus_aborts;
+    }
     let errs = harness_errors.into_inner().unwrap();
     if !errs.is_empty() {
         for e in errs.iter().take(5) {
@@ -284,7 +305,15 @@ pub fn run_check(spec: &CheckSpec, tier: Tier) -> i32 {
     let mut violations = 0u64;
     let mut exit = 0;
     let mut violation_line: Option<String> = None;
-    if let Some(h) = hits.into_iter().next() {
+    // Candidates are confirmed by a replay in a fresh process. If the first one does not reproduce
+    // there (the code under test behaves differently in another process: undefined behaviour, e.g.
+    // a dangling pointer whose effect depends on the heap's history), the next candidates are tried;
+    // only if none reproduces is the batch a harness error.
+    let mut unconfirmed: Vec<String> = vec![];
+    for h in hits.into_iter().take(4) {
+        if exit == 1 {
+            break;
+        }
         violations = 1;
         println!("violation candidate in run {} (run_seed {:016x}): [{}] {}", h.index, h.case.run_seed, h.finding.signature, h.finding.detail);
         let mut h = h;
@@ -313,10 +342,18 @@ pub fn run_check(spec: &CheckSpec, tier: Tier) -> i32 {
                 exit = 1;
             }
             Err(e) => {
-                eprintln!("HARNESS ERROR: replay of {} in a fresh process did not reproduce the violation: {}", path.display(), e);
+                unconfirmed.push(format!("replay of {} in a fresh process did not reproduce the violation: {}", path.display(), e));
+                let _ = std::fs::remove_file(&path);
                 exit = 2;
             }
         }
+    }
+    if exit == 2 {
+        for u in &unconfirmed {
+            eprintln!("HARNESS ERROR: {}", u);
+        }
+    } else if !unconfirmed.is_empty() {
+        println!("  note: {} earlier candidate(s) did not reproduce in a fresh process (behaviour of the code under test that depends on the process, e.g. undefined behaviour)", unconfirmed.len());
     }
     for k in known.findings.iter().filter(|k| k.property == spec.prop) {
         let n = acc.known_hits.get(&k.signature).copied().unwrap_or(0);
